@@ -322,10 +322,61 @@ func (c *Ctx) compareStrings(ex *gosx.Exec, st *eqStats, id, what string, goat, 
 		ex.Assert(ex.TT().Bool(false), id, what+" (shapes differ; decided on a model)", map[string]interface{}{"goat": gs, "ref": rs})
 		return
 	}
+	// the sampled model agrees: sweep special values of every input (one at a time, the others left to the solver)
+	// and decide each feasible one concretely; a disagreement is asserted with all inputs pinned to that model
+	tt := ex.TT()
+	for _, v := range ex.InputVars() {
+		for _, sp := range specialValues(tt, v) {
+			m2, ok := ex.ModelFor(tt.Eq(v, sp))
+			if !ok {
+				continue
+			}
+			if v.W == gosx.SFP {
+				m2, ok = ex.ModelFor(pinTo(tt, v, math.Float64bits(sp.F)))
+				if !ok {
+					continue
+				}
+			}
+			g2, r2 := renderSegs(ga, m2), renderSegs(rb, m2)
+			if g2 == r2 {
+				continue
+			}
+			pin := tt.Bool(true)
+			for _, w := range ex.InputVars() {
+				if val, has := m2[w.Name]; has {
+					pin = tt.And(pin, pinTo(tt, w, val))
+				}
+			}
+			ex.Assert(tt.Not(pin), id, what+" (shapes differ; decided on special input values)", map[string]interface{}{"goat": g2, "ref": r2})
+			return
+		}
+	}
 	st.mu.Lock()
 	st.structural++
 	st.mu.Unlock()
-	ex.Incomplete("output shapes differ and agree on the sampled model: " + id)
+	ex.Incomplete("output shapes differ and agree on the sampled model and on the special-value sweep: " + id)
+}
+
+// specialValues lists boundary values of an input's sort (used when two renderings cannot be compared symbolically).
+func specialValues(tt *gosx.TermTable, v *gosx.Term) []*gosx.Term {
+	var out []*gosx.Term
+	switch {
+	case v.W == gosx.SFP:
+		for _, f := range []float64{math.Copysign(0, -1), 0, 1, -1, 0.5, -2.5, 999999, 1e6, 1e20, 1e21, 1e-4, 1e-5, 123456789, 9007199254740992, math.MaxFloat64, math.SmallestNonzeroFloat64, math.Inf(1), math.Inf(-1), math.NaN()} {
+			out = append(out, tt.FP(f))
+		}
+	case v.W == gosx.SBool:
+		out = append(out, tt.Bool(false), tt.Bool(true))
+	case v.W > 0 && v.W <= 64:
+		mask := ^uint64(0)
+		if v.W < 64 {
+			mask = 1<<uint(v.W) - 1
+		}
+		for _, x := range []uint64{0, 1, 2, 9, 10, 127, 128, 255, 256, 65535, 65536, 1 << 31, 1<<31 - 1, mask, mask - 1, mask >> 1, mask>>1 + 1} {
+			out = append(out, tt.BV(x&mask, v.W))
+		}
+	}
+	return out
 }
 
 // compareResult asserts that a goat Value equals the Go result of static type gt.
